@@ -487,7 +487,76 @@ func c09(r *core.Run) {
 			}
 		}
 		walk(cm)
+		// traversal functions: those of the tree that can reach themselves (the recursion over the trie)
+		recursive := map[*ssa.Function]bool{}
+		for _, fn := range tree {
+			seenR := map[*ssa.Function]bool{}
+			st := []*ssa.Function{fn}
+			for len(st) > 0 {
+				x := st[len(st)-1]
+				st = st[:len(st)-1]
+				for _, c := range core.Calls(x) {
+					cal := c.Common().StaticCallee()
+					if cal == nil || cal.Pkg != cm.Pkg {
+						continue
+					}
+					if cal == fn {
+						recursive[fn] = true
+					}
+					if !seenR[cal] {
+						seenR[cal] = true
+						st = append(st, cal)
+					}
+				}
+			}
+		}
+		callsTraversal := func(fn *ssa.Function) bool {
+			for _, c := range core.Calls(fn) {
+				if cal := c.Common().StaticCallee(); cal != nil && recursive[cal] {
+					return true
+				}
+			}
+			return false
+		}
+		// predicate results: the dynamic predicate calls, and the calls of helpers that merely
+		// hand the predicate's answer for one node back (and do not traverse themselves)
 		nPred := 0
+		var judge func(fn *ssa.Function, c ssa.CallInstruction, depth int)
+		judge = func(fn *ssa.Function, c ssa.CallInstruction, depth int) {
+			bad := ""
+			returned := false
+			var chk func(v ssa.Value, d int)
+			chk = func(v ssa.Value, d int) {
+				if v == nil || v.Referrers() == nil || d > 4 {
+					return
+				}
+				for _, rf := range *v.Referrers() {
+					switch x := rf.(type) {
+					case *ssa.If, *ssa.DebugRef:
+					case *ssa.UnOp:
+						chk(x, d+1)
+					case *ssa.Phi:
+						chk(x, d+1) // `a && test(h)` as a value
+					case *ssa.Return:
+						returned = true
+					default:
+						bad = fmt.Sprintf("%T at %s", rf, p.InstrPos(rf))
+					}
+				}
+			}
+			chk(c.Value(), 0)
+			if returned {
+				if callsTraversal(fn) || recursive[fn] || depth > 3 {
+					bad = "returned from " + core.FuncName(fn) + ", which also walks the subtree on another path"
+				} else {
+					// a one-node helper: its callers must treat the answer the same way
+					for _, cs := range p.CallersOf(fn) {
+						judge(cs.Parent(), cs, depth+1)
+					}
+				}
+			}
+			r.Check(bad == "", "S8", core.FuncName(fn), "predicate-result-only-branched-on", p.InstrPos(c), "a node whose handler does not satisfy the predicate does not end the search", "the predicate's answer for one node is used as the traversal's result ("+bad+"): when that node's handler is of another kind the nodes below it are never examined, so the service does not own (subscribe to, announce) a kind that is registered deeper in the trie")
+		}
 		for _, fn := range tree {
 			for _, c := range core.Calls(fn) {
 				if !core.IsDynamic(c) {
@@ -502,24 +571,7 @@ func c09(r *core.Run) {
 					continue
 				}
 				nPred++
-				bad := ""
-				var chk func(v ssa.Value, d int)
-				chk = func(v ssa.Value, d int) {
-					if v == nil || v.Referrers() == nil || d > 3 {
-						return
-					}
-					for _, rf := range *v.Referrers() {
-						switch x := rf.(type) {
-						case *ssa.If, *ssa.DebugRef:
-						case *ssa.UnOp:
-							chk(x, d+1)
-						default:
-							bad = fmt.Sprintf("%T at %s", rf, p.InstrPos(rf))
-						}
-					}
-				}
-				chk(c.Value(), 0)
-				r.Check(bad == "", "S8", core.FuncName(fn), "predicate-result-only-branched-on", p.InstrPos(c), "a node whose handler does not satisfy the predicate does not end the search", "the predicate's answer for one node is used as the traversal's result ("+bad+"): when that node's handler is of another kind the nodes below it are never examined, so the service does not own (subscribe to, announce) a kind that is registered deeper in the trie")
+				judge(fn, c, 0)
 			}
 		}
 		if nPred == 0 {
